@@ -538,6 +538,11 @@ class Report:
             "notes": self.notes,
         }
         cov.update(self.extra_cov)
+        try:
+            from . import anchors
+            cov["anchored_sources"] = anchors.report(self.prop)
+        except Exception as e:  # never let the informational part break a check
+            cov["anchored_sources"] = {"error": repr(e)}
         ev = {"property_id": self.prop, "tier": self.tier, "seed": self.seed, "level": "proof",
               "coverage": cov, "assumptions": assumptions, "wall_s": round(wall, 2),
               "violations": len(self.violations)}
